@@ -24,6 +24,11 @@ class Unsupported(Exception):
     pass
 
 
+class StmtUnknown(Exception):
+    """a statement inside to_numpy whose effect the translator cannot state with certainty"""
+    pass
+
+
 def _self_fields(cls_node):
     for f in cls_node.body:
         if isinstance(f, ast.FunctionDef) and f.name == '__init__':
@@ -114,59 +119,77 @@ def _analyse(cls_node, modname):
         return dict(cls=cls_node.name, module=modname, generic=True, rows=[], merges=[], rebinds_messages=False, ntd=[])
     env, mutated, rebinds = {}, set(), False
     dict_node, late, merges = None, [], []
+    unknown_stmts, all_uncertain = [], False
+
+    def handle(s, conditional):
+        nonlocal dict_node, rebinds
+        if isinstance(s, ast.Assign) and len(s.targets) == 1:
+            t = s.targets[0]
+            if isinstance(t, ast.Name):
+                if t.id == 'messages':
+                    rebinds = True
+                elif t.id == 'result' and isinstance(s.value, ast.Dict) and not conditional and dict_node is None:
+                    dict_node = s.value
+                elif t.id == 'result':
+                    raise Unsupported('%s.to_numpy: `result` assigned in a way the translator does not understand' % cls_node.name)
+                else:
+                    if t.id in env or conditional:
+                        mutated.add(t.id)
+                    env[t.id] = s.value
+            elif isinstance(t, ast.Subscript) and isinstance(t.value, ast.Name):
+                if t.value.id == 'result':
+                    if not (isinstance(t.slice, ast.Constant) and isinstance(t.slice.value, str)):
+                        raise StmtUnknown()
+                    late.append((t.slice.value, s.value, conditional))
+                else:
+                    mutated.add(t.value.id)
+            else:
+                raise StmtUnknown()
+        elif isinstance(s, ast.If):
+            visit(s.body, True)
+            visit(s.orelse, True)
+        elif isinstance(s, ast.Expr) and isinstance(s.value, ast.Call) and isinstance(s.value.func, ast.Attribute) \
+                and isinstance(s.value.func.value, ast.Name) and s.value.func.value.id == 'result' and s.value.func.attr == 'update':
+            a = s.value.args[0] if len(s.value.args) == 1 else None
+            ok = False
+            if isinstance(a, ast.Call) and isinstance(a.func, ast.Attribute) and a.func.attr == 'to_numpy' \
+                    and isinstance(a.func.value, ast.Name) and len(a.args) == 1 and isinstance(a.args[0], ast.ListComp):
+                lc = a.args[0]
+                if len(lc.generators) == 1 and isinstance(lc.generators[0].iter, ast.Name) and lc.generators[0].iter.id == 'messages' \
+                        and isinstance(lc.generators[0].target, ast.Name) and not lc.generators[0].ifs:
+                    p = _attr_path(lc.elt, lc.generators[0].target.id)
+                    if p and not conditional:
+                        merges.append((a.func.value.id, p))
+                        ok = True
+            if not ok:
+                raise StmtUnknown()
+        elif isinstance(s, ast.Return):
+            if isinstance(s.value, ast.Dict) and dict_node is None and not conditional:
+                dict_node = s.value
+            elif isinstance(s.value, ast.Name) and s.value.id == 'result':
+                pass
+            else:
+                raise Unsupported('%s.to_numpy: return %s' % (cls_node.name, ast.unparse(s.value)[:120] if s.value else ''))
+        else:
+            raise StmtUnknown()
 
     def visit(stmts, conditional):
-        nonlocal dict_node, rebinds
+        nonlocal all_uncertain, rebinds
         for s in stmts:
-            if isinstance(s, ast.Assign) and len(s.targets) == 1:
-                t = s.targets[0]
-                if isinstance(t, ast.Name):
-                    if t.id == 'messages':
-                        rebinds = True
-                    elif t.id == 'result' and isinstance(s.value, ast.Dict) and not conditional and dict_node is None:
-                        dict_node = s.value
-                    elif t.id == 'result':
-                        raise Unsupported('%s.to_numpy: `result` assigned in a way the translator does not understand' % cls_node.name)
-                    else:
-                        if t.id in env or conditional:
-                            mutated.add(t.id)
-                        env[t.id] = s.value
-                elif isinstance(t, ast.Subscript) and isinstance(t.value, ast.Name):
-                    if t.value.id == 'result':
-                        if not (isinstance(t.slice, ast.Constant) and isinstance(t.slice.value, str)):
-                            raise Unsupported('%s.to_numpy: result[<non-literal>] = ...' % cls_node.name)
-                        late.append((t.slice.value, s.value, conditional))
-                    else:
-                        mutated.add(t.value.id)
-                else:
-                    raise Unsupported('%s.to_numpy: assignment target %s' % (cls_node.name, ast.unparse(t)))
-            elif isinstance(s, ast.If):
-                visit(s.body, True)
-                visit(s.orelse, True)
-            elif isinstance(s, ast.Expr) and isinstance(s.value, ast.Call) and isinstance(s.value.func, ast.Attribute) \
-                    and isinstance(s.value.func.value, ast.Name) and s.value.func.value.id == 'result' and s.value.func.attr == 'update':
-                a = s.value.args[0] if len(s.value.args) == 1 else None
-                ok = False
-                if isinstance(a, ast.Call) and isinstance(a.func, ast.Attribute) and a.func.attr == 'to_numpy' \
-                        and isinstance(a.func.value, ast.Name) and len(a.args) == 1 and isinstance(a.args[0], ast.ListComp):
-                    lc = a.args[0]
-                    if len(lc.generators) == 1 and isinstance(lc.generators[0].iter, ast.Name) and lc.generators[0].iter.id == 'messages' \
-                            and isinstance(lc.generators[0].target, ast.Name) and not lc.generators[0].ifs:
-                        p = _attr_path(lc.elt, lc.generators[0].target.id)
-                        if p and not conditional:
-                            merges.append((a.func.value.id, p))
-                            ok = True
-                if not ok:
-                    raise Unsupported('%s.to_numpy: result.update(%s)' % (cls_node.name, ast.unparse(s.value)[:120]))
-            elif isinstance(s, ast.Return):
-                if isinstance(s.value, ast.Dict) and dict_node is None and not conditional:
-                    dict_node = s.value
-                elif isinstance(s.value, ast.Name) and s.value.id == 'result':
-                    pass
-                else:
-                    raise Unsupported('%s.to_numpy: return %s' % (cls_node.name, ast.unparse(s.value)[:120] if s.value else ''))
-            else:
-                raise Unsupported('%s.to_numpy: statement %s' % (cls_node.name, ast.unparse(s)[:120]))
+            try:
+                handle(s, conditional)
+            except StmtUnknown:
+                # Effect not understood: every local it mentions may have been changed by it; if it mentions `result` or
+                # `messages`, nothing the dict literal says can be relied on any more.
+                unknown_stmts.append(ast.unparse(s).split('\n')[0][:100])
+                if any(isinstance(n, ast.Return) for n in ast.walk(s)):
+                    raise Unsupported('%s.to_numpy: return inside a statement the translator does not understand' % cls_node.name)
+                names = {n.id for n in ast.walk(s) if isinstance(n, ast.Name)}
+                if 'result' in names or 'messages' in names:
+                    all_uncertain = True
+                if 'messages' in {n.id for n in ast.walk(s) if isinstance(n, ast.Name) and isinstance(n.ctx, ast.Store)}:
+                    rebinds = True
+                mutated.update(names - {'result', 'messages', 'cls', 'np'})
     visit(body, False)
     if dict_node is None:
         raise Unsupported('%s.to_numpy: no result dict literal found' % cls_node.name)
@@ -190,7 +213,13 @@ def _analyse(cls_node, modname):
         r = dict(key=key, kind='Opaque', path=[], cast='', transposed=False,
                  text=ast.unparse(v) + ('   (assigned after the dict literal%s)' % (', conditionally' if cond else '')))
         rows = [x for x in rows if x['key'] != key] + [r]
-    return dict(cls=cls_node.name, module=modname, generic=False, rows=rows, merges=merges, rebinds_messages=rebinds, ntd=ntd)
+    if all_uncertain:
+        for r in rows:
+            if r['kind'] != 'Opaque':
+                r.update(kind='Opaque', path=[], text=r['text'] + '   (a later statement the translator does not understand touches result/messages)')
+        ntd = []
+    return dict(cls=cls_node.name, module=modname, generic=False, rows=rows, merges=merges, rebinds_messages=rebinds, ntd=ntd,
+                unknown_stmts=unknown_stmts, all_uncertain=all_uncertain)
 
 
 def build_table():
@@ -240,8 +269,13 @@ def build_table():
                 unanalysed[name + ' (merged part)'] = 'merges %s.to_numpy which the translator cannot resolve' % other
                 continue
             for r in analysed[other]['rows']:
+                r = dict(r)
+                if a.get('all_uncertain') and r['kind'] != 'Opaque':
+                    r.update(kind='Opaque', path=[])
                 rows[r['key']] = dict(r, path=(prefix + r['path']) if r['path'] else [], prefix=prefix, fields=analysed[other]['fields'],
                                       ntd=r['key'] in analysed[other]['ntd'], via=other)
+        if a.get('unknown_stmts'):
+            unanalysed[name + ' (statements)'] = 'not understood: ' + ' ;; '.join(a['unknown_stmts']) + (' -> all rows Opaque' if a.get('all_uncertain') else ' -> locals involved treated as modified')
         table.append(dict(cls=name, module=a['module'], rebinds_messages=a['rebinds_messages'], fields=a['fields'],
                           ntd=a['ntd'], rows=list(rows.values())))
     # classes inheriting a non-generic to_numpy from a base in the package
